@@ -340,6 +340,7 @@ structure Sim where
   pending : List Nat         -- Unsubscribe calls that have not returned yet
   asked : List Nat           -- every sid for which Unsubscribe was called
   prev : List (Nat × List String)  -- last observation of the readers
+  race : Bool := false       -- registrations were committed while the stream was starting
 
 def insertSorted (l : List String) (a : String) : List String := sortStrs (if l.contains a then l else a :: l)
 
@@ -352,8 +353,11 @@ def stepSim (acc : Sim × Bool × List String × List Json) (so : Json × Json) 
   let (sim, agree, viols, models) := acc
   let (stp, ob) := so
   -- 1. global registration change
-  let reg0 := if jhas stp "reg" then insertSorted sim.reg (jstr (jget stp "reg"))
-             else if jhas stp "dereg" then sim.reg.filter (· != jstr (jget stp "dereg")) else sim.reg
+  let raceAddrs := jstrs (jget stp "race")
+  let regR := raceAddrs.foldl insertSorted sim.reg
+  let reg0 := if jhas stp "reg" then insertSorted regR (jstr (jget stp "reg"))
+             else if jhas stp "dereg" then regR.filter (· != jstr (jget stp "dereg")) else regR
+  let race := sim.race || !raceAddrs.isEmpty
   -- a multi-key transaction = one watch response with several events (a delete of an absent key yields no event)
   let resp : List WEv := (jarr (jget stp "txn")).filterMap fun o =>
     if jhas o "put" then some (WEv.put (jstr (jget o "put")))
@@ -382,7 +386,7 @@ def stepSim (acc : Sim × Bool × List String × List Json) (so : Json × Json) 
   let obsLast (i : Nat) : Option (List String) :=
     let r := jget ob "readers"
     if jhas r (toString i) then some (jstrs (jget r (toString i))) else none
-  let sfx := if st3.exited then ":stream-closed" else if stuckNow then ":slow-reader" else ""
+  let sfx := if st3.exited then ":stream-closed" else if stuckNow then ":slow-reader" else if race then ":start-race" else ""
   let v1 := liveReaders.filterMap fun s => if obsLast s.id == some reg then none else some ("C27:not-converged" ++ sfx)
   let unsubDone (i : Nat) : Bool := let u := jget (jget ob "unsubs") (toString i); jbool (jget u "done") && jbool (jget u "closed")
   let v2 := asked.filterMap fun i => if unsubDone i then none else some ("C27:unsubscribe-blocked" ++ sfx)
@@ -393,7 +397,7 @@ def stepSim (acc : Sim × Bool × List String × List Json) (so : Json × Json) 
   let prev := liveReaders.filterMap fun s => (obsLast s.id).map fun l => (s.id, l)
   let mj := Json.mkObj [("blocked", st3.blocked), ("exited", st3.exited), ("registered", Json.arr (reg.map Json.str).toArray),
     ("closed", Json.arr (st3.closedIds.map (fun i => ji (Int.ofNat i))).toArray)]
-  ({ reg := reg, st := st3, pending := pending', asked := asked, prev := prev }, agree && agreeReaders && agreeUnsubs, viols ++ v1 ++ v2, models ++ [mj])
+  ({ reg := reg, st := st3, pending := pending', asked := asked, prev := prev, race := race }, agree && agreeReaders && agreeUnsubs, viols ++ v1 ++ v2, models ++ [mj])
 
 def handle (j : Json) : Json :=
   let id := jget j "id"
@@ -405,8 +409,9 @@ def handle (j : Json) : Json :=
   let hasUnsub := steps.any fun s => jstr (jget s "op") == "unsub"
   let hasClose := steps.any fun s => jstr (jget s "op") == "closewatch"
   let hasTxn := steps.any fun s => jhas s "txn"
+  let hasRace := steps.any fun s => jhas s "race"
   verdict id (agree && steps.length == obs.length) (Json.arr models.toArray) viols.eraseDups
-    ("helium:" ++ (if hasSlow then "slow" else "ready") ++ (if hasUnsub then "+unsub" else "") ++ (if hasClose then "+watchclosed" else "") ++ (if hasTxn then "+txn" else ""))
+    ("helium:" ++ (if hasSlow then "slow" else "ready") ++ (if hasUnsub then "+unsub" else "") ++ (if hasClose then "+watchclosed" else "") ++ (if hasTxn then "+txn" else "") ++ (if hasRace then "+startrace" else ""))
 end HeliumO
 
 end Oracle.Misc
